@@ -14,7 +14,8 @@ RULE = ("every decimal mantissa of up to d digits (d=2 for all precisions and pr
         "configuration {none, default table, each table used by the display helpers}; complex: four quadrants x a 12-value "
         "magnitude palette squared x Cartesian/polar/degree x precision; every Display.print_* helper on a value palette; "
         "each rendering is parsed back by a reference parser and compared with the exact binary value; states = distinct "
-        "(value, precision, configuration) inputs, transitions = renderings judged; non-trivial = rendering of a non-zero value")
+        "(value, precision, configuration) inputs, transitions = renderings judged; non-trivial = rendering of a non-zero value"
+        ' Additions: render / update the object / render again over 96 states x 96 states.')
 ASSUMPTIONS = ["a relative slack of 1e-9 on the half unit absorbs binary64 neighbours of decimal ties (half-to-even on the scaled float)",
                "random binary64 values between the grid points are not examined (sampling is a different family)"]
 EXPLANATION = "direct exploration of ScientificFloat / ScientificComplex / Display helpers with a reference parser"
